@@ -2,3 +2,4 @@
 import Strengths.Driver.All
 import Strengths.Props.C06
 import Strengths.Props.C01
+import Strengths.Props.C03
